@@ -32,6 +32,15 @@ import (
 //     before gives the contents of X; for a popped, abandoned, unknown or wrong-height identifier - and for the root -
 //     there is no patch ("unknown"): the pool and the sync code take `GetPatch != nil` for "this block is in the pool".
 // Values are never empty here (the encoding of empty values in historical leveldb views is the business of `vdb`).
+//
+// TRANSACTIONS WITH MORE THAN ONE COMMIT (a contract receive with descendant sends: GetCommits() = descendants + block): one
+// commit in three on the frontier is a transaction of 2-4 chained commits with ONE patch. The manager applies it as a whole and
+// rolls it back as a whole. For the Lean manager model a transaction of k commits is k commits - the first carries the patch, the
+// others nothing, so that every identifier of the transaction shows the state after it (as the manager's versions do) - and ONE
+// Pop of the manager is k pops of the model (k `vdb-pop` lines with the one observed answer). Monitors, after every Add / Pop:
+// the frontier identifier and the full contents of Frontier() are those of the shadow - after the Pop of a transaction exactly
+// those before its Add (identifier and contents); every identifier of a rolled back transaction answers GetPatch / Get like an
+// unknown one; a commit whose parent is a rolled back (intermediate) commit is refused, a commit on the frontier accepted.
 // ---------------------------------------------------------------------------------------------------
 
 func vdbMemVal(c *Ctx) []byte {
@@ -43,8 +52,11 @@ func vdbMemVal(c *Ctx) []byte {
 	return v
 }
 
+var vdbMemFBD1 int // FBD1 is reported a few times per run, not at every step
+
 func init() {
 	register("vdb-mem", func(c *Ctx) {
+		vdbMemFBD1 = 0
 		for seq := 0; seq < c.N; seq++ {
 			vdbMemSequence(c, seq)
 		}
@@ -163,6 +175,32 @@ func vdbMemSequence(c *Ctx, seq int) {
 	abandoned := []types.HashHeight{}
 	unknown := []types.HashHeight{}
 	views := []*vView{}
+	// transactions: txStart[i] = the index in chain at which the i-th transaction above the root starts (a Pop removes chain[txStart[last]:]);
+	// txBefore[id] = the version before the transaction whose HEAD is id; inner[id] = id is a commit of a transaction other than its head;
+	// poppedInner[id] = id was an inner commit of a transaction that was rolled back (and has not been committed again since)
+	txStart := []int{}
+	txBefore := map[types.HashHeight]string{}
+	inner := map[types.HashHeight]bool{}
+	poppedInner := map[types.HashHeight]string{} // (value: the transaction, for the report)
+	// checkFrontier: Frontier() identifies itself as the shadow's frontier and holds exactly its contents
+	checkFrontier := func(what string) bool {
+		var f db.DB
+		if pn := safely(func() { f = m.Frontier() }); pn != "" || f == nil {
+			c.Fail("vdb-mem seq=%d %s: Frontier() is not served (panic=%s)", seq, what, firstLine(pn))
+			return false
+		}
+		want := frontierID()
+		if got := db.GetFrontierIdentifier(f); got != want {
+			c.Fail("vdb-mem seq=%d %s: the frontier view identifies itself as %s, the frontier is %s", seq, what, verKey(got), verKey(want))
+			return false
+		}
+		got, _, _ := scanDB(f, nil)
+		if w := userPart(specs[verKey(want)]); got != w {
+			c.Fail("vdb-mem seq=%d %s: the frontier view (at %s) holds [%s], the contents of the store as of %s are [%s]", seq, what, verKey(want), got, verKey(want), w)
+			return false
+		}
+		return true
+	}
 
 	// the patch monitor: which identifiers answer GetPatch, and what the patch replays to
 	checkPatches := func(what string) bool {
@@ -179,6 +217,22 @@ func vdbMemSequence(c *Ctx, seq int) {
 				return false
 			}
 			i, on := onChain[id]
+			if tx, was := poppedInner[id]; !on && was {
+				// FBD1 (known, unchanged tree): Pop of a transaction of k > 1 commits forgets its head only
+				var d db.DB
+				safely(func() { d = m.Get(id) })
+				if p != nil || d != nil {
+					if vdbMemFBD1 < 1 {
+						vdbMemFBD1++
+						c.Fail("vdb-mem seq=%d %s: popped-inner-commit-still-answers: after the Pop of a transaction of more than one commit its inner commit %s still answers like a version of the chain (GetPatch non-nil=%v, Get serves a view=%v) - a rolled back commit must answer like an unknown one; input: %s",
+							seq, what, verKey(id), p != nil, d != nil, tx)
+					}
+					c.Hit("mem-popped-inner-still-answers(FBD1)")
+				} else {
+					c.Hit("mem-popped-inner-unknown")
+				}
+				return true
+			}
 			if !on {
 				if p != nil {
 					c.Fail("vdb-mem seq=%d %s: GetPatch(%s) answers a patch [%s] although %s is %s - only the versions of the current chain above the root have one (a popped version must answer like an unknown one)",
@@ -198,10 +252,19 @@ func vdbMemSequence(c *Ctx, seq int) {
 				c.Fail("vdb-mem seq=%d %s: GetPatch(%s) is nil although %s is version %d of the current chain", seq, what, verKey(id), verKey(id), i+1)
 				return false
 			}
-			// replaying the patch over the version before gives this version
+			if inner[id] {
+				// an inner commit of a transaction: "in the pool" (non-nil); what the transaction wrote is judged at its head
+				c.Hit("mem-patch-inner")
+				return true
+			}
+			// replaying the patch over the version before (the transaction) gives this version
 			prevKey := "0:"
 			if i > 0 {
 				prevKey = idStr(chain[i-1])
+			}
+			if b, ok := txBefore[id]; ok {
+				prevKey = b
+				c.Hit("mem-patch-replays-transaction")
 			}
 			got := userPart(applyOps(specs[prevKey], patchOps(p)))
 			if want := userPart(specs[idStr(id)]); got != want {
@@ -276,9 +339,29 @@ func vdbMemSequence(c *Ctx, seq int) {
 				}
 			}
 			ops := genOps()
+			// the transaction: one commit, or (one in three) 2-4 chained commits with one patch
+			ids := []types.HashHeight{id}
+			if c.R.Intn(3) == 0 {
+				for k := 1 + c.R.Intn(3); k > 0; k-- {
+					last := ids[len(ids)-1]
+					ids = append(ids, types.HashHeight{Height: last.Height + 1, Hash: newHash()})
+				}
+				if len(ops) == 0 || c.R.Intn(3) == 0 {
+					ops = append(ops, kvOp{k: vdbKey(c), v: vdbMemVal(c)})
+				}
+				c.HitN("mem-add-transaction-commits", len(ids))
+			}
+			commits := make([]db.Commit, len(ids))
+			for i, x := range ids {
+				p := prev
+				if i > 0 {
+					p = ids[i-1]
+				}
+				commits[i] = &vCommit{id: x, prev: p}
+			}
 			var aerr error
 			pn := safely(func() {
-				aerr = m.Add(&vTx{commits: []db.Commit{&vCommit{id: id, prev: prev}}, patch: mkPatch(ops)})
+				aerr = m.Add(&vTx{commits: commits, patch: mkPatch(ops)})
 			})
 			res := "ok"
 			if pn != "" {
@@ -286,14 +369,36 @@ func vdbMemSequence(c *Ctx, seq int) {
 			} else if aerr != nil {
 				res = "err"
 			}
-			c.Emit("vdb-add %s %s %s | %s", verKey(prev), idStr(id), opsString(ops, false), res)
+			for i, x := range ids {
+				if i == 0 {
+					c.Emit("vdb-add %s %s %s | %s", verKey(prev), idStr(x), opsString(ops, false), res)
+				} else {
+					c.Emit("vdb-add %s %s none | %s", idStr(ids[i-1]), idStr(x), res)
+				}
+			}
 			c.Hit("mem-add-frontier")
 			if res != "ok" {
-				c.Fail("vdb-mem seq=%d: commit %s on the current frontier %s refused (%s)", seq, idStr(id), verKey(prev), res)
+				c.Fail("vdb-mem seq=%d: transaction of %d commit(s) %s…%s on the current frontier %s refused (%s: %v %s)", seq, len(ids), idStr(ids[0]), idStr(ids[len(ids)-1]), verKey(prev), res, aerr, firstLine(pn))
 				return
 			}
-			specs[idStr(id)] = applyOps(specs[verKey(prev)], ops)
-			chain = append(chain, id)
+			after := applyOps(specs[verKey(prev)], ops)
+			txStart = append(txStart, len(chain))
+			for i, x := range ids {
+				specs[idStr(x)] = after
+				delete(poppedInner, x)
+				delete(inner, x)
+				delete(txBefore, x)
+				if i < len(ids)-1 {
+					inner[x] = true
+				}
+			}
+			if len(ids) > 1 {
+				txBefore[ids[len(ids)-1]] = verKey(prev)
+			}
+			chain = append(chain, ids...)
+			if !checkFrontier(fmt.Sprintf("after the Add of a transaction of %d commit(s) %s…%s on %s", len(ids), idStr(ids[0]), idStr(ids[len(ids)-1]), verKey(prev))) {
+				return
+			}
 		case r < 30: // commit on a stale / abandoned / unknown parent: refused, nothing changes (monitors only)
 			var prev types.HashHeight
 			switch k := c.R.Intn(3); {
@@ -342,7 +447,15 @@ func vdbMemSequence(c *Ctx, seq int) {
 			} else if perr != nil {
 				res = "err"
 			}
+			// the transaction at the frontier: one Pop of the manager takes back all its commits (one pop of the model each)
+			from := len(chain) - 1
+			if len(txStart) > 0 {
+				from = txStart[len(txStart)-1]
+			}
 			c.Emit("vdb-pop | %s", res)
+			for i := from + 1; i < len(chain); i++ {
+				c.Emit("vdb-pop | %s", res)
+			}
 			c.Hit("mem-pop")
 			if len(chain) == 0 {
 				if res != "err" {
@@ -355,10 +468,30 @@ func vdbMemSequence(c *Ctx, seq int) {
 				c.Fail("vdb-mem seq=%d: pop of frontier %s failed: %s", seq, idStr(frontierID()), res)
 				return
 			}
-			abandoned = append(abandoned, chain[len(chain)-1])
-			chain = chain[:len(chain)-1]
+			popped := append([]types.HashHeight{}, chain[from:]...)
+			before := "0:"
+			if from > 0 {
+				before = idStr(chain[from-1])
+			}
+			if len(popped) > 1 {
+				c.Hit("mem-pop-transaction")
+				for _, x := range popped[:len(popped)-1] {
+					poppedInner[x] = fmt.Sprintf("NewMemDBManager, …, Add(one transaction, commits %s…%s chained on frontier %s), Pop()", idStr(popped[0]), idStr(popped[len(popped)-1]), before)
+				}
+			}
+			for _, x := range popped {
+				delete(inner, x)
+				delete(txBefore, x)
+			}
+			abandoned = append(abandoned, popped...)
+			chain = chain[:from]
+			txStart = txStart[:len(txStart)-1]
 			if got := db.GetFrontierIdentifier(m.Frontier()); got != frontierID() {
-				c.Fail("vdb-mem seq=%d: after the pop the frontier is %s, expected %s", seq, verKey(got), verKey(frontierID()))
+				c.Fail("vdb-mem seq=%d: after the pop of the transaction %s…%s (%d commit(s)) the frontier is %s, expected %s - the version before the transaction", seq,
+					idStr(popped[0]), idStr(popped[len(popped)-1]), len(popped), verKey(got), verKey(frontierID()))
+				return
+			}
+			if !checkFrontier(fmt.Sprintf("after the Pop of the transaction %s…%s (%d commit(s))", idStr(popped[0]), idStr(popped[len(popped)-1]), len(popped))) {
 				return
 			}
 		case r < 60: // open a view
@@ -386,6 +519,9 @@ func vdbMemSequence(c *Ctx, seq int) {
 			}
 			if id.IsZero() && rootLen > 0 {
 				continue
+			}
+			if _, was := poppedInner[id]; was {
+				continue // (judged by the patch monitor: FBD1)
 			}
 			inRoot := false
 			for _, x := range chain[:rootLen] {
@@ -430,9 +566,13 @@ func vdbMemSequence(c *Ctx, seq int) {
 			}
 			v := &vView{name: name, d: d, base: base.clone(), writes: map[string][]byte{}, version: verKey(id)}
 			views = append(views, v)
-			if got := db.GetFrontierIdentifier(d); got != id {
+			if got := db.GetFrontierIdentifier(d); got != id && !inner[id] {
+				// (the view at an inner commit of a transaction is the view at its head: the transaction is one step of the store)
 				c.Fail("vdb-mem seq=%d: view at %s reports frontier identifier %s", seq, verKey(id), verKey(got))
 				return
+			}
+			if inner[id] {
+				c.Hit("mem-view-inner-commit")
 			}
 			if !checkView(v, "at open") {
 				return
